@@ -1,6 +1,7 @@
 import PhononModel.Lemmas.ThermalLimits
 import PhononModel.Lemmas.Basic
 import PhononModel.Lemmas.IEEE
+import PhononModel.Lemmas.ThermalLoop
 /-!
 # C10 — thermal properties: harmonic closed forms and thermodynamic identities
 
@@ -425,6 +426,136 @@ theorem mesh_S_cv_nonneg_mono (hk : 0 < k) (hcut : 0 ≤ cut) (hw : ∀ q, 0 ≤
 
 end mesh
 
+/-! ## 4a. the Python preparation: band selection, pretend_real, cutoff, projection, mode counts -/
+
+section prep
+variable {nq nb ns : Nat} (w : Fin nq → ℝ) (fr : Fin nq → Fin nb → ℝ) (cut c thz : ℝ)
+
+/-- `cutoff_frequency = None` or negative gives 0, otherwise the value in eV; it is never negative
+(for a non-negative conversion factor) — the hypothesis `0 ≤ cut` of the mesh theorems. -/
+theorem cutoff_nonneg (hthz : 0 ≤ thz) (co : Option ℝ) :
+    0 ≤ cutoffEv thz co ∧ cutoffEv thz none = 0 ∧ (∀ x, x < 0 → cutoffEv thz (some x) = 0) ∧
+    (∀ x, 0 ≤ x → cutoffEv thz (some x) = x * thz) := by
+  refine ⟨?_, rfl, fun x hx => by simp [cutoffEv, hx], fun x hx => by simp [cutoffEv, not_lt.2 hx]⟩
+  cases co with
+  | none => simp [cutoffEv]
+  | some x =>
+    by_cases hx : x < 0
+    · simp [cutoffEv, hx]
+    · simp only [cutoffEv, hx, if_false]
+      exact mul_nonneg (not_lt.1 hx) hthz
+
+/-- **pretend_real** — the prepared frequency is `|ν|·THzToEv` (so imaginary modes, stored as negative
+numbers, are summed as if real); without it `ν·THzToEv`. -/
+theorem pretend_real_abs (bi : Fin ns → Fin nb) (q : Fin nq) (j : Fin ns) :
+    prepFreqs thz true bi fr q j = |fr q (bi j)| * thz ∧ prepFreqs thz false bi fr q j = fr q (bi j) * thz := by
+  constructor
+  · simp only [prepFreqs, if_true, absv]
+    by_cases h : fr q (bi j) < 0
+    · rw [if_pos h, abs_of_neg h]
+    · rw [if_neg h, abs_of_nonneg (not_lt.1 h)]
+  · simp [prepFreqs]
+
+/-- **band_indices** — selecting bands restricts every mesh sum to the selected bands: the sum over the
+selected columns equals the sum over the full band range restricted to the image of the selection
+(distinct indices). -/
+theorem band_selection_restricts (bi : Fin ns → Fin nb) (hbi : Function.Injective bi) (pr : Bool) (g : ℝ → ℝ) :
+    meshSum w (prepFreqs thz pr bi fr) cut g
+      = ∑ q, ∑ b ∈ Finset.univ.image bi,
+          if cut < prepFreqs thz pr id fr q b then g (prepFreqs thz pr id fr q b) * w q else 0 := by
+  rw [meshSum_eq]
+  unfold msum
+  refine Finset.sum_congr rfl fun q _ => ?_
+  rw [Finset.sum_image (fun a _ b _ h => hbi h)]
+  rfl
+
+/-- **projection** — for eigenvectors normalised per mode (`Σ_j |e_{jν}|² = 1`) the projected components
+add up to the unprojected quantity. -/
+theorem projection_sums_to_total (e2 : Fin nq → Fin nb → Fin nb → ℝ) (hnorm : ∀ q ν, ∑ j, e2 q j ν = 1)
+    (g : ℝ → ℝ) : ∑ j, projSum w fr e2 cut g j = meshSum w fr cut g := by
+  rw [meshSum_eq]
+  unfold projSum msum
+  simp only [sumFin_eq]
+  rw [Finset.sum_comm]
+  refine Finset.sum_congr rfl fun q _ => ?_
+  rw [← Finset.sum_mul, Finset.sum_comm, Finset.sum_mul]
+  refine Finset.sum_congr rfl fun ν _ => ?_
+  by_cases h : cut < fr q ν
+  · simp only [h, if_true]
+    rw [← Finset.sum_mul, hnorm]; ring
+  · simp [h]
+
+/-- **mode counts** — `number_of_modes = (number of bands)·Σw`, `number_of_integrated_modes = Σ_q w_q·#{ν > cutoff}`;
+with classical statistics the mesh heat capacity is exactly `k_B` per integrated mode (equipartition), and the
+quantum one never exceeds it. -/
+theorem mode_counts (hk : 0 < k) (hT : 0 < T) (hcut : 0 ≤ cut) (hw : ∀ q, 0 ≤ w q) (hW : 0 < ∑ q, w q)
+    (hc : 0 ≤ c) :
+    numModes nb w = nb * ∑ q, w q ∧
+    numIntegrated w fr cut = ∑ q, w q * ((Finset.univ.filter fun j => cut < fr q j).card : ℝ) ∧
+    pyCv modeCv (envR k) c true w fr cut T = k * numIntegrated w fr cut / (∑ q, w q) * c ∧
+    pyCv modeCv (envR k) c false w fr cut T ≤ k * numIntegrated w fr cut / (∑ q, w q) * c := by
+  have hnum : numIntegrated w fr cut = msum w fr cut (fun _ => 1) := by
+    unfold numIntegrated msum
+    rw [sumFin_eq]
+    refine Finset.sum_congr rfl fun q _ => ?_
+    rw [sumFin_eq, Finset.mul_sum]
+    refine Finset.sum_congr rfl fun j _ => ?_
+    split_ifs <;> ring
+  refine ⟨?_, ?_, ?_, ?_⟩
+  · unfold numModes
+    simp [sumFin_eq, Finset.mul_sum]
+  · unfold numIntegrated
+    rw [sumFin_eq]
+    refine Finset.sum_congr rfl fun q _ => ?_
+    rw [sumFin_eq, Finset.sum_ite, Finset.sum_const, Finset.sum_const_zero]
+    simp
+  · simp only [pyCv, hT, if_true, meshSum_eq, wsum_eq, hnum]
+    rw [← msum_smul]
+    congr 2
+    refine msum_congr w fr cut fun q j _ => ?_
+    simp [modeCv, envR]
+  · simp only [pyCv, hT, if_true, meshSum_eq, wsum_eq, hnum]
+    rw [← msum_smul]
+    apply mul_le_mul_of_nonneg_right _ hc
+    apply div_le_div_of_nonneg_right _ hW.le
+    refine msum_mono w fr cut hw fun q j h => ?_
+    have := cv_le_kB hk hT (lt_of_le_of_lt hcut h)
+    linarith
+
+end prep
+
+/-! ## 4b. the compiled loop nest is the model's guarded weighted sum -/
+
+/-- **loop_eq_model** — the loop nest of `phpy_get_thermal_properties` as translated from c/phonopy.c on this
+run (zeroing of the malloc'd `tp`, the q-point / temperature / band loops with the `T > 0 && f > cutoff` test,
+the serial reduction into `thermal_props`) adds to `thermal_props[3j + c]` exactly the model sum
+`cSum g_c` of `Model/Thermal.lean` — for every number of temperatures, q-points and bands, every input
+array, and whatever the uninitialised contents of `tp` and `f` were; cells beyond `3·num_temp` are untouched. -/
+theorem loop_eq_model (E : ThermalEnv ℝ) (props0 temps freqs weights : Nat → ℝ) (nt nq nb : Nat) (cut : ℝ)
+    (cl : Int) (tp0 : Nat → ℝ) (f0 : ℝ) :
+    (∀ j, j < nt →
+      ThermalC.phpy_get_thermal_properties E props0 temps freqs weights nt nq nb cut cl tp0 f0 (j * 3 + 0)
+        = props0 (j * 3 + 0) + cSum (ThermalC.get_free_energy E) cl (fun q : Fin nq => weights q)
+            (fun (q : Fin nq) (k : Fin nb) => freqs (q * nb + k)) cut (temps j) ∧
+      ThermalC.phpy_get_thermal_properties E props0 temps freqs weights nt nq nb cut cl tp0 f0 (j * 3 + 1)
+        = props0 (j * 3 + 1) + cSum (ThermalC.get_entropy E) cl (fun q : Fin nq => weights q)
+            (fun (q : Fin nq) (k : Fin nb) => freqs (q * nb + k)) cut (temps j) ∧
+      ThermalC.phpy_get_thermal_properties E props0 temps freqs weights nt nq nb cut cl tp0 f0 (j * 3 + 2)
+        = props0 (j * 3 + 2) + cSum (ThermalC.get_heat_capacity E) cl (fun q : Fin nq => weights q)
+            (fun (q : Fin nq) (k : Fin nb) => freqs (q * nb + k)) cut (temps j)) ∧
+    (∀ m, nt * 3 ≤ m →
+      ThermalC.phpy_get_thermal_properties E props0 temps freqs weights nt nq nb cut cl tp0 f0 m = props0 m) := by
+  refine ⟨fun j hj => ⟨?_, ?_, ?_⟩, fun m hm => proc_frame E temps freqs weights nt nq nb cut cl props0 tp0 f0 hm⟩
+  all_goals
+    rw [proc_cell E temps freqs weights nt nq nb cut cl props0 tp0 f0 hj (by omega)]
+    congr 1
+    unfold cSum
+    rw [sumFin_eq, Finset.sum_range]
+    refine Finset.sum_congr rfl fun q _ => ?_
+    rw [sumFin_eq, Finset.sum_range]
+    refine Finset.sum_congr rfl fun k _ => ?_
+    simp [contrib]
+
 /-! ## 5. units -/
 
 /-- the literal `#define KB 8.6173382568083159E-05` of c/phonopy.c is `kb_J/EV` of phonopy/units.py
@@ -555,6 +686,12 @@ end PhononModel.C10
 #print axioms PhononModel.C10.F_tendsto_zpe
 #print axioms PhononModel.C10.weighted_sum_linear
 #print axioms PhononModel.C10.zero_temperature_branch
+#print axioms PhononModel.C10.cutoff_nonneg
+#print axioms PhononModel.C10.pretend_real_abs
+#print axioms PhononModel.C10.band_selection_restricts
+#print axioms PhononModel.C10.projection_sums_to_total
+#print axioms PhononModel.C10.mode_counts
+#print axioms PhononModel.C10.loop_eq_model
 #print axioms PhononModel.C10.mesh_S_cv_C_eq_Py
 #print axioms PhononModel.C10.mesh_F_C_eq_Py
 #print axioms PhononModel.C10.mesh_F_C_eq_Py_pinned_partial
